@@ -124,10 +124,12 @@ PP_FIRST = {
 }
 
 
-def pp_pipeline_dict(G, pp):
+def pp_pipeline_dict(G, pp, nest=False):
     d = pipeline_dict(G)
     mark = {"id": "pmark", "type": "embed", "prefix": "M(", "suffix": ")"}
     mark.update(group_keys("rule", G["rule"], "rule"))
+    if nest:  # nest{T} = T for post-processing items as well
+        mark = {"id": "pwrap", "type": "nest", "items": [mark]}
     d["postprocessing"] = ([dict(PP_FIRST[pp], id="first")] if pp != "none" else []) + [mark]
     d["transformations"] = d["transformations"][:8]
     return d
@@ -141,14 +143,14 @@ def drive_case(case):
         from sigma.backends.test import TextQueryTestBackend
 
         def gopp():
-            p = ProcessingPipeline.from_dict(pp_pipeline_dict(case["G"], case["pp"]))
+            p = ProcessingPipeline.from_dict(pp_pipeline_dict(case["G"], case["pp"], bool(case.get("nest"))))
             q = TextQueryTestBackend(p).convert_rule(SigmaRule.from_dict(copy.deepcopy(RULE)))
             return {"items": [], "refs": [], "fields": [], "rule": all(x.startswith("M(") for x in q)}
 
         ret = outcome(gopp)
         if not ret["ok"]:
             ret["out"] = {"items": [], "fields": [], "rule": False, "refs": []}
-        return {"id": case["id"], "G": case["G"], "pp": case["pp"], "ret": ret}
+        return {"id": case["id"], "G": case["G"], "pp": case["pp"], "nest": bool(case.get("nest")), "ret": ret}
 
     def go():
         p = ProcessingPipeline.from_dict(pipeline_dict(case["G"], bool(case.get("nest"))))
